@@ -194,8 +194,8 @@ on every input, except for panics that all come from the *writer*: the unchecked
 C13-4; an operation pointer that goes backwards in a VLIW program, C12-L5 — all debug builds only)
 and the `assert!`s of `add_directory` / `add_file` on strings a parsed header cannot contain (an
 empty include directory of a version ≤ 4 table, a NUL inside a name). `line_rows_preserved`
-(`Props/C12LineRows.lean`) shows that for tombstone-free non-VLIW programs with line numbers below
-2^63 no step of the row loop panics. -/
+(`Props/C12LineRows.lean`) shows that for non-VLIW programs (tombstones included) whose reported
+rows have line numbers below 2^63 no step of the row loop panics. -/
 theorem line_read_row_consumes (strs : Strs) (h : Params) : ∀ (is : List Instr) (tomb : Bool)
     (address : Option Nat) (st st' : CSt) (ev : RowEv) (rest : List Instr),
     readRowLoop strs h tomb address st is = .ok (some ev, st', rest) → rest.length < is.length := by
@@ -398,12 +398,11 @@ equal, then the end row at `a + off`**, and reader and writer are back in their 
 By `line_row_registers` each `rᵢ` carries the source row's registers with the file mapped through
 the converted table (`line_files_preserved`), so the rows read back are the source rows.
 
-Missing for the full statement (kept as the differential oracle `rows-differ` of `c12-line`, 28 000
-cases per run, and `Props.C12.line_addresses_preserved` for the address dimension incl.
-tombstones): that the source rows, as `LineRows` returns them, are the converter's relative rows
-shifted by the sequence's `set_address` — the simulation between `LineRows::next_row` and
-`read_row` over all instructions — and that they always satisfy `ChainOk` when no
-`fixed_advance_pc` is unaligned. Where the code really differs: `line_*_counterexample`. -/
+The full statement — the simulation between `LineRows::next_row` and `read_row` over all
+instructions, tombstones included, with `ChainOk`/`EndOk` derived — is `line_rows_preserved`
+(`Props/C12LineRows.lean`) for `max_ops = 1`; for VLIW programs this partial form and the
+differential oracle `rows-differ` of `c12-line` remain. Where the code really differs:
+`line_*_counterexample`. -/
 theorem line_rows_preserved_partial (m : Mode) (en : Endian) (format : Format) (addrSize : Nat)
     (st : CSt) (a : Nat) (r1 : WRow) (rows : List WRow) (off : Nat)
     (henc : EncOk st.prog.enc) (hv : st.prog.enc.version ≤ 5)
